@@ -180,11 +180,11 @@ impl Packetizer {
     //@end
 
     // the zero-copy input interface: the slice handed out for writing is never empty and the buffered bytes are untouched
-    // CALLER PROTOCOL (a precondition the doc comment does not state): no complete frame is waiting in the buffer, i.e. next_message
-    // was drained -- the tokio transport and the fuzz targets always call next_message first. Without it (a cached length, that many
-    // bytes buffered, capacity exactly used up) the slice WOULD be empty.
+    // no caller protocol is needed: whatever is buffered and cached, the slice is non-empty (before the fix recorded in
+    // known-findings.txt this needed "no complete frame is waiting": with a cached length, that many bytes buffered and the capacity
+    // exactly used up, neither branch reserved)
     //@fn core/src/message/packetizer.rs Packetizer::spare_capacity_mut vis=crate
-        requires old(self).inv(), old(self).len matches Some(l) ==> old(self).buf@.len() < l,
+        requires old(self).inv(),
         ensures r@.len() > 0, final(self).inv(), final(self).buf@ == old(self).buf@, final(self).len == old(self).len,
     //@end
 
